@@ -467,7 +467,23 @@ def codecOfCollation (c : Nat) : Option String :=
   | none => none
   | some (_, _, cs) => (Mimic.Extracted.Charset.charsets.find? (fun y => y.2.1 == cs)).map (fun y => y.2.2.1)
 
+/-- `Collation(c).charset` as a character-set id -/
+def charsetOfCollation (c : Nat) : Option Nat :=
+  match Mimic.Extracted.Charset.collations.find? (fun x => x.1 == c) with
+  | none => none
+  | some (_, _, cs) => (Mimic.Extracted.Charset.charsets.find? (fun y => y.2.1 == cs)).map (fun y => y.1)
+
+def codecOfCharset (cs : Nat) : Option String :=
+  (Mimic.Extracted.Charset.charsets.find? (fun y => y.1 == cs)).map (fun y => y.2.2.1)
+
 /-- decoders the driver knows exactly: utf-8 (strict), latin-1 (total), ascii; no codec ⇒ raises -/
+def decForCharset (cs : Nat) (b : List UInt8) : Option (List UInt8) :=
+  match codecOfCharset cs with
+  | some "utf-8" => (utf8Dec b).map (fun _ => b)
+  | some "iso8859-1" => some b
+  | some "ascii" => if b.all (fun x => x.toNat < 128) then some b else none
+  | _ => none
+
 def decFor (c : Nat) (b : List UInt8) : Option (List UInt8) :=
   match codecOfCollation c with
   | some "utf-8" => (utf8Dec b).map (fun _ => b)
@@ -482,7 +498,7 @@ def showOptB : Option (List UInt8) → String
 def pktOps (_st : St) : List String → String
   | ["hs", caps, h] => match caps.toNat?, unhex h with
       | some caps, some b =>
-        match Mimic.Packets.parseHandshakeResponse caps (fun c => (codecOfCollation c).isSome || Mimic.Extracted.Charset.collations.any (fun x => x.1 == c)) decFor b with
+        match Mimic.Packets.parseHandshakeResponse caps charsetOfCollation decForCharset b with
         | .ssl c m co => s!"ssl {c} {m} {co}"
         | .error => "error"
         | .resp r => s!"resp caps={r.caps} max={r.maxPacket} cs={r.charset} user={hex r.username} auth={hex r.auth} db={showOptB r.db} plugin={showOptB r.plugin} attrs={";".intercalate (r.attrs.map (fun kv => hex kv.1 ++ ":" ++ hex kv.2))} zstd={r.zstd}"
